@@ -287,3 +287,165 @@ def routing(kinds, crlf, i, d):
 
 def data_len(kinds, crlf):
     return len(_encode(kinds, crlf)[0])
+
+
+# ------------------------------------------------------------------ (d) back-pressure: a read stream of bounded capacity
+class BoundedRec:
+    """the client's read stream with its capacity: `send` suspends the reader while the buffer is full (the consumer
+    then runs and takes what is buffered), `send_nowait` raises WouldBlock instead; the consumer also runs whenever
+    the reader waits for the next chunk.  One legitimate schedule of a consumer that is slower than the reader."""
+
+    def __init__(self, cap):
+        self.cap, self.buf, self.taken = cap, [], []
+
+    def drain(self):
+        self.taken += self.buf
+        self.buf = []
+
+    def send_nowait(self, item):
+        if len(self.buf) >= self.cap:
+            raise _anyio.WouldBlock()
+        self.buf.append(item)
+
+    async def send(self, item):
+        if len(self.buf) >= self.cap:
+            self.drain()
+        self.buf.append(item)
+
+    async def aclose(self):
+        pass
+
+    @property
+    def items(self):
+        return self.taken + self.buf
+
+
+class _DrainingStdout:
+    def __init__(self, chunks, client):
+        self.chunks, self.client = chunks, client
+
+    def __aiter__(self):
+        self._i = 0
+        return self
+
+    async def __anext__(self):
+        s = self.client._incoming_send
+        if isinstance(s, BoundedRec):
+            s.drain()  # the reader waits for the child: the consumer runs
+        if self._i >= len(self.chunks):
+            raise StopAsyncIteration
+        c = self.chunks[self._i]
+        self._i += 1
+        return c
+
+
+def _bounded(chunks, cap):
+    def prep(client):
+        client._incoming_send = BoundedRec(cap)
+        client.process.stdout = _DrainingStdout(list(chunks), client)
+
+    c, _ = _run_reader(chunks, record_json=False, prepare=prep)
+    return c
+
+
+def routing_bounded(kinds, cap, i):
+    """a few lines, one cut, read stream of capacity `cap` (symbolic, >= 1)"""
+    data, exp_main, exp_notif = _encode(kinds, False)
+    if not (0 <= i <= len(data)):
+        return "ok"
+    c = _bounded([data[:i], data[i:]] if i else [data], cap)
+    main = [dump(m) for m in c._incoming_send.items]
+    if not same_json(main, exp_main):
+        return "main-stream-differs-under-back-pressure"
+    return "ok"
+
+
+from harness import sizes as _sizes  # noqa: E402
+
+
+def _many_lines(n, kind):
+    one = {"jsonrpc": "2.0", "method": "notifications/message", "params": {"n": 0}} if kind == 0 else {"jsonrpc": "2.0", "id": 7, "result": {"n": 0}}
+    msgs = []
+    for j in range(n):
+        m = {"jsonrpc": "2.0"}
+        m.update(one)
+        if kind == 0:
+            m["params"] = {"n": j}
+        elif kind == 1:
+            m["id"] = j + 1
+        else:
+            m = ({"jsonrpc": "2.0", "method": "notifications/message", "params": {"n": j}}, {"jsonrpc": "2.0", "id": j + 1, "result": {}}, {"jsonrpc": "2.0", "id": "s%d" % j, "method": "ping"})[j % 3]
+        msgs.append(m)
+    data = b"".join(_json.dumps(m).encode() + b"\n" for m in msgs)
+    return msgs, data
+
+
+def many_lines(k, kind, cap, nchunks, lim=410):
+    """count dimension: c-1, c, c+1 lines (c: integer constants of the source) arriving in ONE read, or cut into
+    nchunks reads of equal size; read stream of capacity cap"""
+    n = _sizes.pick(_sizes.size_cases(lim), k)
+    msgs, data = _many_lines(n, kind)
+    if nchunks <= 1:
+        chunks = [data]
+    else:
+        step = len(data) // nchunks + 1
+        chunks = [data[a:a + step] for a in range(0, len(data), step)]
+    c = _bounded(chunks, cap)
+    main = [dump(m) for m in c._incoming_send.items]
+    if len(main) != len(msgs):
+        return "lines-lost-or-duplicated:%d" % (len(main) - len(msgs))
+    if not same_json(main, msgs):
+        return "main-stream-differs-under-back-pressure"
+    return "ok"
+
+
+def _real_bounded(chunks, cap):
+    """the real reader on real anyio memory streams of capacity cap, with a consumer task"""
+    import anyio
+    from symcheck import vloop
+
+    got = []
+
+    async def main():
+        c = make_client(chunks)
+        c._incoming_send, recv = anyio.create_memory_object_stream(cap)
+        c._notify_send, nrecv = anyio.create_memory_object_stream(100)
+
+        async def consume():
+            async for m in recv:
+                got.append(dump(m))
+
+        async with anyio.create_task_group() as tg:
+            tg.start_soon(consume)
+            await c._stdout_reader()
+            await anyio.sleep(0.01)
+            await c._incoming_send.aclose()
+
+    vloop.run_virtual(main)
+    return got
+
+
+def routing_bounded_real(kinds, cap, i):
+    data, exp_main, exp_notif = _encode(kinds, False)
+    if not (0 <= i <= len(data)):
+        return "ok"
+    got = _real_bounded([data[:i], data[i:]] if i else [data], cap)
+    if not same_json(got, exp_main):
+        return "main-stream-differs-under-back-pressure"
+    return "ok"
+
+
+def many_lines_real(k, kind, cap, nchunks, lim=410):
+    n = _sizes.pick(_sizes.size_cases(lim), k)
+    msgs, data = _many_lines(n, kind)
+    if nchunks <= 1:
+        chunks = [data]
+    else:
+        step = len(data) // nchunks + 1
+        chunks = [data[a:a + step] for a in range(0, len(data), step)]
+    got = _real_bounded(chunks, cap)
+    if len(got) != len(msgs):
+        return "lines-lost-or-duplicated:%d" % (len(got) - len(msgs))
+    if not same_json(got, msgs):
+        return "main-stream-differs-under-back-pressure"
+    return "ok"
